@@ -96,7 +96,8 @@ impl Monitor for C06 {
         // an explicit check stores exactly what the query predicted
         if let Op::CheckSlashing { .. } = c.op {
             out.count("c06.explicit_checks");
-            if (post.raw_pool_b, post.raw_pool_s) != (pre.pool_b, pre.pool_s) {
+            // within the statement's two base units per pool, with an exact total
+            if post.raw_pool_b.abs_diff(pre.pool_b) > 2 || post.raw_pool_s.abs_diff(pre.pool_s) > 2 || post.raw_pool_b + post.raw_pool_s != pre.pool_b + pre.pool_s {
                 out.violation(
                     P,
                     "check_stores_prediction",
